@@ -106,6 +106,9 @@ def make_case(matrix, form, columns, secondary, cfg):
 
 
 def case_size(case):
+    if case.get("kind") == "history":
+        rows = case["rows"]
+        return (len(rows) * case["n_cols"], len(rows), sum(map(len, rows)), case["fail_step"] + len(case["steps"]), len(repr(case)))
     m = case["matrix"]
     plain = sum(case.get(k) is not None for k in ("columns", "secondary", "max_solutions", "max_iter")) + (case.get("form", "list") != "list")
     return (len(m) * (len(m[0]) if m else 0), len(m), sum(map(sum, m)), plain, len(repr(case)))
@@ -218,14 +221,25 @@ def judge(D, matrix, form, columns, secondary, cfg, flags, covers, m_arg=None, s
     if sec_snap is not None and (set(secondary) if isinstance(secondary, (set, frozenset)) else list(secondary)) != sec_snap:
         bad.append((P + "frame:matrix-unchanged", f"secondary after the call: {short(secondary)}"))
 
-    # same input again -> same answer
+    # same input again -> same answer. In history mode (the caller passes its own objects) the list returned by the
+    # first call is emptied before the second call and refilled afterwards: what a caller does to its result must not
+    # reach the next answer.
+    obs1 = observe(r)
+    mine = getattr(r, "solution", None)
+    kept = None
+    if defects is not None and isinstance(mine, list):
+        kept = list(mine)
+        mine.clear()
     how2, r2 = call_solver(D, m_arg, columns, secondary, cfg)
     if how2 == "hang":
         return bad, True, r
     if how2 == "exc":
-        bad.append((P + "ensures:deterministic", f"second call raised {r2}, first returned {short(observe(r))}"))
-    elif observe(r) != observe(r2):
-        bad.append((P + "ensures:deterministic", f"first call {short(observe(r))}, second call {short(observe(r2))}"))
+        bad.append((P + "ensures:deterministic", f"second call raised {r2}, first returned {short(obs1)}"))
+    elif obs1 != observe(r2):
+        bad.append((P + "ensures:deterministic", f"first call {short(obs1)}, second call "
+                    f"{'(after the caller emptied the list it got from the first) ' if kept is not None else ''}{short(observe(r2))}"))
+    if kept is not None:
+        mine[:] = kept
 
     status = getattr(getattr(r, "status", None), "name", None)
     sol = getattr(r, "solution", None)
@@ -1094,7 +1108,7 @@ def hist_case(H, step, cfg):
     return c
 
 
-def run_history(D, H, acc, upto=None, only_cfg=None, log=None):
+def run_history(D, H, acc, upto=None, log=None):
     """Play one history in this process. Every step: edit the objects, ask the oracle about the input as it is now,
     judge every configuration (each judged call is made twice). Returns the (final state, digests) for the fresh-
     process comparison, or None if the history was cut short."""
@@ -1121,14 +1135,12 @@ def run_history(D, H, acc, upto=None, only_cfg=None, log=None):
             acc["defects"].append(f"{H['family']} {H['spec']}: oracle counts {truth.total} covers, construction says {H['expect_total']}")
         nontrivial = any(not f for f in flags) and any(any(not flags[j] for j in cols) for cols in (sp if big else O.sparse_rows(plain)))
         todo = list(cfgs)
-        if k == 0 and only_cfg is None:  # aim max_iter at the code's own iteration count (hint only, never an oracle)
+        if k == 0:  # aim max_iter at the code's own iteration count (hint only, never an oracle)
             for fa in (True, False):
                 how, r = call_solver(D, m, st["columns"], st["secondary"], (fa, None, None))
                 n = getattr(r, "iterations", None) if how == "ok" else None
                 if isinstance(n, int) and n >= 2:
                     todo += [(fa, None, n - 1), (fa, None, n)]
-        if only_cfg is not None and k == len(steps) - 1 and tuple(only_cfg) not in todo:
-            todo.append(tuple(only_cfg))
         if log:
             log(f"step {k}: {what}; {R} rows x {C} columns, {sum(flags)} secondary, oracle: {truth.total} cover(s)")
         last = []
@@ -1138,8 +1150,9 @@ def run_history(D, H, acc, upto=None, only_cfg=None, log=None):
             acc["n_eval"] += 1
             acc["n_nontrivial"] += bool(nontrivial)
             acc["hist_calls"][H["family"]] = acc["hist_calls"].get(H["family"], 0) + 1
-            if hang:
+            if hang:  # nothing that follows in this process would be a fair question any more: the history ends here
                 acc["hangs"].append({"family": H["family"], "spec": H["spec"], "step": k, "cfg": list(cfg)})
+                return None
             for ob, detail in bad:
                 acc["viol"].append((ob, hist_case(H, k, cfg), f"[history step {k}: {what}] {detail}"))
             if log:
@@ -1233,6 +1246,8 @@ def work_histories(task):
                 acc["samples"].append({"kind": "history", "family": family, "spec": spec, "rows x columns": [len(H["rows"]), H["n_cols"]],
                                        "steps": H["steps"]})
         try:
+            if task["specs"][0][0] == "small":  # many tiny histories: one configuration each goes to the fresh process
+                pending = [(H, final, last[:1]) for H, final, last in pending]
             answers = fresh_answers([(final, [c for c, _ in last]) for _, final, last in pending])
         except Exception as e:  # noqa: BLE001
             acc["defects"].append(f"fresh-process comparison not run: {e}")
@@ -1325,7 +1340,73 @@ def plan(ctx: Ctx):
     scopes.append(dict(name="seeded named-column / representation cases", instances=len(named), name_schemes=list(NAME_SCHEMES),
                        secondary_forms=["None", "[]", "list", "tuple", "set", "unknown names", "repeated names", "all columns"],
                        matrix_forms=["list", "tuple of tuples", "list of tuples", "bool entries"], config_level="mid", exhaustive=False))
+    tasks = plan_histories(ctx, scopes) + tasks  # the long single-process sequences first
     return tasks, scopes
+
+
+LADDER_SIZES = [10, 12, 33, 65, 129, 140, 260, 520, 600, 1000, 1030, 1100, 1300]
+LADDER_KINDS = [("square", False, 12, "none"), ("square", True, 8, "str"), ("square", True, 1, "none"),
+                ("square", False, 0, "shift"), ("tall", True, 2, "none"), ("wide", True, 3, "str"),
+                # thorough only from here
+                ("square", True, 0, "str"), ("square", False, 1, "str"), ("tall", False, 6, "shift"), ("wide", False, 1, "none"),
+                ("tall", True, 0, "str"), ("wide", True, 36, "shift")]
+
+
+def plan_histories(ctx, scopes):
+    q = ctx.quick
+    tasks = []
+    # --- long searches (one part, 10^3..10^6 iterations), each the start of a history
+    shapes = [("queens", n, 0) for n in ((6, 7, 8, 9, 10, 11) if q else (6, 7, 8, 9, 10, 11, 12))] + [("matchings", n, 0) for n in (8, 10, 12, 14)] + \
+             [("partitions", n, 0) for n in (6, 7, 8, 9)] + [("domino", 2, 10), ("domino", 4, 4), ("domino", 4, 6), ("domino", 6, 6), ("domino", 4, 8)]
+    long_specs = []
+    for shape, n, m in shapes:
+        for seed, names in ([(0, "none")] + ([(1, "str")] if (shape, n) in (("queens", 8), ("queens", 10), ("matchings", 12), ("partitions", 9)) else [])
+                            if q else [(0, "none"), (1, "str"), (2, "shift"), (3, "none"), (4, "str")]):
+            long_specs.append({"shape": shape, "n": n, "m": m, "seed": seed, "names": names,
+                               "steps": (1 if (shape, n) == ("matchings", 14) else 4) if q else 6})
+    if not q:
+        for shape, n, m in (("queens", 13, 0), ("partitions", 10, 0), ("domino", 6, 8)):
+            for seed, names in ((0, "none"), (1, "str")) if shape != "queens" else ((1, "str"),):
+                long_specs.append({"shape": shape, "n": n, "m": m, "seed": seed, "names": names, "steps": 2 if shape != "queens" else 1})
+    heavy = {("queens", 13): 9, ("queens", 12): 5, ("domino", 6): 4, ("partitions", 10): 4, ("matchings", 14): 3, ("queens", 11): 2}
+    long_specs.sort(key=lambda sp: -heavy.get((sp["shape"], sp["n"]), 0))
+    for sp in long_specs:
+        tasks.append({"kind": "hist", "level": "hist", "specs": [("long", sp)], "timeout": 10.0 if q else 120.0,
+                      "cfgs": BASE_CFGS + [(True, 100, None)]})
+    scopes.append(dict(name="long searches as history starts: n-queens 6..11 (12, 13 thorough; diagonals secondary), perfect matchings of "
+                            "K8..K14, set partitions of 6..9 (10) elements, domino tilings 2x10..6x6 (6x8)", histories=len(long_specs),
+                       steps_after_start=sorted({sp["steps"] for sp in long_specs}), oracle="covers_by_parts (bit-mask backtracking) "
+                       "cross-checked with the closed-form count of the start instance", exhaustive=False))
+    # --- size ladder
+    sizes = LADDER_SIZES + ([] if q else [2000, 2600])
+    kinds = LADDER_KINDS[:6] if q else LADDER_KINDS
+    lad = []
+    for size in sizes:
+        for variant, sec, total, names in kinds:
+            for seed in ((0,) if q else (0, 1, 2) if size <= 1300 else (0,)):
+                lad.append({"size": size, "variant": variant, "sec": sec, "total": total, "names": names, "seed": seed,
+                            "steps": (3 if size < 500 else 2) if q else (5 if size < 500 else 3)})
+    big = [sp for sp in lad if sp["size"] >= 500]
+    rest = [sp for sp in lad if sp["size"] < 500]
+    big.sort(key=lambda sp: -sp["size"])
+    for sp in big:
+        tasks.append({"kind": "hist", "level": "hist", "specs": [("ladder", sp)], "timeout": 10.0 if q else 60.0})
+    for ch in chunks(rest, 3):
+        tasks.append({"kind": "hist", "level": "hist", "specs": [("ladder", sp) for sp in ch], "timeout": 10.0})
+    scopes.append(dict(name="size ladder: block-structured instances (independent blocks <= 9x8 with a planted number of covers, junk rows / "
+                            "secondary columns, rows and columns shuffled), each the start of a history", sizes=sizes,
+                       variants=[f"{v}{'+secondary' if s else ''}/{t} covers/names={n}" for v, s, t, n in kinds], histories=len(lad),
+                       meaning_of_size="square: rows >= size and columns >= size; tall: rows >= size; wide: columns >= size",
+                       oracle="union-find split into independent parts + enumeration per part; product cross-checked with the planted counts",
+                       exhaustive=False))
+    # --- small random histories against the subset enumeration
+    n_small = 4000 if q else 40000
+    small = [{"seed": k, "steps": 4} for k in range(n_small)]
+    for ch in chunks(small, 250):
+        tasks.append({"kind": "hist", "level": "hist", "specs": [("small", sp) for sp in ch], "cfgs": BASE_CFGS + [(False, None, 3)]})
+    scopes.append(dict(name="small random histories (2x3..6x5, all matrix representations, names none/str/int), 4 in-place edits each, "
+                            "subset-enumeration oracle at every step", histories=n_small, exhaustive=False))
+    return tasks
 
 
 class Tally(set):
@@ -1347,6 +1428,43 @@ def zero_row_notes(D):
     return f"solve_exact_cover([], columns=['A']) -> {observe(r) if how == 'ok' else (how, r)} (0 rows, one named primary column: recorded, not judged)"
 
 
+def oracle_selfcheck(ctx):
+    """The second-generation oracle against the subset enumeration, the sparse checker against the dense one, the
+    closed-form counts against the enumeration (any disagreement is a checker defect, exit 3)."""
+    rng = random.Random(ctx.seed + 2)
+    for k in range(400):
+        R, C = rng.randint(1, 7), rng.randint(1, 6)
+        m = dense_matrix(rng, R, C) if k % 2 else [[rng.randint(0, 1) for _ in range(C)] for _ in range(R)]
+        fl = [rng.random() < 0.3 for _ in range(C)]
+        sp = O.sparse_rows(m)
+        want = O.all_covers(m, fl)
+        T = Truth(O.covers_by_parts(sp, fl))
+        got = {frozenset().union(*combo) for combo in itertools.product(*T.parts)} if T.exists else set()
+        if got != want or T.total != len(want) or any(not T.contains(c) for c in want) or T.missing(want) is not None or \
+                (want and T.missing(set(list(want)[1:])) is None):
+            ctx.defects.append(f"covers_by_parts / Truth disagree with the subset enumeration on {m} {fl}")
+        for _ in range(6):
+            sel = rng.sample(range(R), rng.randint(0, R))
+            if O.why_not_cover(m, fl, sel) != O.why_not_cover_sparse(sp, fl, sel):
+                ctx.defects.append(f"why_not_cover_sparse differs from why_not_cover on {m} {fl} {sel}")
+    for kind, n, mm in [("queens", n, 0) for n in (4, 5, 6, 7, 8)] + [("matchings", n, 0) for n in (4, 6, 7, 8)] + \
+                       [("partitions", n, 0) for n in (3, 5, 7)] + [("domino", 2, 5), ("domino", 3, 4), ("domino", 4, 4), ("domino", 3, 3)]:
+        rows, sec, expect = long_matrix(kind, n, mm)
+        fl = [j in set(sec) for j in range(len(rows[0]))]
+        T = Truth(O.covers_by_parts(O.sparse_rows(rows), fl))
+        if T.total != expect:
+            ctx.defects.append(f"closed-form count {expect} != enumeration {T.total} for {kind} {n} {mm}")
+
+
+def deep_probe(D):
+    """Recorded, not judged: identity matrices need one selected row per column, i.e. one Python frame per column."""
+    out = []
+    for n in (900, 1200):
+        how, r = guarded(D.solve_exact_cover, [[1 if i == j else 0 for j in range(n)] for i in range(n)])
+        out.append(f"identity {n}x{n}: " + (f"{observe(r)[1]}, {len(r.solution or ())} rows selected" if how == "ok" else f"{how} {r}"))
+    return "; ".join(out)
+
+
 def run(ctx: Ctx):
     use_repo()
     import solvor.dlx as D
@@ -1359,25 +1477,39 @@ def run(ctx: Ctx):
         fl = [rng.random() < 0.3 for _ in range(C)]
         if O.all_covers(m, fl) != O.all_covers_naive(m, fl):
             ctx.defects.append(f"oracle disagreement on {m} {fl}")
-    results = pmap(work, tasks, chunksize=1)
+    oracle_selfcheck(ctx)
+    results = pmap(work_any, tasks, chunksize=1)
     tally = Tally(ctx.nontrivial)
     ctx.nontrivial = tally
     agg = new_acc()
     n_eval = 0
     found = {}
     skipped = 0
+    n_hist_samples = {"ladder": 0, "long": 0, "small": 0}
     for t, acc in zip(tasks, results):
         n_eval += acc["n_eval"]
         tally.by_construction += acc["n_nontrivial"]
-        for k in ("pairs", "pairs_feasible", "pairs_multi", "cut_by_max_iter", "link_evals", "links_skipped", "restore_evals"):
+        for k in ("pairs", "pairs_feasible", "pairs_multi", "cut_by_max_iter", "link_evals", "links_skipped", "restore_evals",
+                  "hist_steps", "histories", "fresh_compared"):
             agg[k] += acc[k]
+        for k in ("hist_calls", "iters_ge"):
+            for kk, v in acc[k].items():
+                agg[k][kk] = agg[k].get(kk, 0) + v
         agg["max_covers"] = max(agg["max_covers"], acc["max_covers"])
+        agg["max_listed"] = max(agg["max_listed"], acc["max_listed"])
+        agg["max_dims"] = max(agg["max_dims"], acc["max_dims"])
+        ctx.defects += acc["defects"][:5]
+        for why in acc["oracle_limit"]:
+            ctx.undecided.append({"obligation": P + "ensures:find_all-complete", "why": "oracle limit: " + why})
         for ob, case, detail in acc["viol"]:
             found.setdefault(ob, []).append((case_size(case), case, detail))
         for case in acc["hangs"]:
-            ctx.undecided.append({"obligation": P + "returns", "why": f"no answer within {CALL_TIMEOUT}s on {case}"})
+            ctx.undecided.append({"obligation": P + "returns", "why": f"no answer within {t.get('timeout', CALL_TIMEOUT)}s (CPU) on {short(case, 400)}"})
         skipped += acc.get("skipped_task", 0)
-        if acc["samples"] and len(ctx.samples) < 12 and (t["kind"] == "cases" or t.get("R", 0) >= 3):
+        if acc["samples"] and len(ctx.samples) < 12 and (t["kind"] == "cases" or t.get("R", 0) >= 3 or
+                                                         (t["kind"] == "hist" and n_hist_samples[t["specs"][0][0]] < 2)):
+            if t["kind"] == "hist":
+                n_hist_samples[t["specs"][0][0]] += 1
             ctx.count(0, (), acc["samples"][:1])
     ctx.count(n_eval + agg["link_evals"] + agg["restore_evals"], ())
     if skipped:
@@ -1401,6 +1533,13 @@ def run(ctx: Ctx):
                             "SKIPPED: solvor.dlx no longer has _build_links/_cover/_uncover under these names"),
         "inner contract instances skipped (helper shape changed)": agg["links_skipped"],
         "zero-row matrix with named columns": zero_row_notes(D),
+        "histories played": agg["histories"], "history steps (start + edits)": agg["hist_steps"],
+        "judged calls inside histories, per family": agg["hist_calls"],
+        "judged history calls whose search took at least N iterations": agg["iters_ge"],
+        "largest number of selections in one find_all answer": agg["max_listed"],
+        "largest matrix judged (rows, columns)": agg["max_dims"],
+        "answers compared with a fresh interpreter process": agg["fresh_compared"],
+        "selections deeper than the interpreter's recursion limit (recorded, not judged)": deep_probe(D),
     }
     ctx.rule = ("case = (matrix, its representation, column names, secondary, find_all, max_solutions, max_iter); every case is one "
                 "evaluation of the whole top-level contract (two solver calls, frame + determinism + every ensures clause against the "
@@ -1409,23 +1548,66 @@ def run(ctx: Ctx):
                 "code's own iteration count; mid: 4 modes x {default,5} + boundary; lite: find_all, first, find_all at boundary N). "
                 "Seeded scopes are de-duplicated by their full text; all cases are distinct by construction (see Tally). non-trivial = at least one primary column and at least one row "
                 "with a 1 in a primary column (the search has to cover something); distinct = different case tuple. The evaluation "
-                "count also includes the inner-contract evaluations (cover/uncover sequences, search-restores runs).")
+                "count also includes the inner-contract evaluations (cover/uncover sequences, search-restores runs). "
+                "History cases = (family, generator spec, step, configuration): a start instance (size ladder: seeded blocks with a "
+                "planted number of covers; long search: queens / matchings / partitions / dominoes; small: seeded random) followed by "
+                "seeded in-place edits of the same matrix / columns / secondary objects (names of two columns exchanged - the first edit "
+                "always exchanges a secondary with a primary name when both exist -, names permuted, secondary entry removed / added, "
+                "cell flipped, row appended / removed, names restored, plain repeat); at every step the oracle is asked about the input "
+                "as it is then and every configuration (find_all, first, max_solutions=2 [,100 / max_iter=3]; at the start also max_iter "
+                "N-1 and N for the code's own iteration count N) is one evaluation of the same contract; the answers of the last step "
+                "are compared with those of a fresh interpreter process. Distinct by construction: one history per spec. Numeric "
+                "fine-structure (dyadic gaps, thresholds like 1e-9) does not apply: the inputs are 0/1 matrices and names.")
     ctx.assumptions += [
-        "bounded: matrices up to the listed shapes only; no claim beyond them",
+        "bounded: matrices up to the listed shapes only; no claim beyond them (ladder / long-search instances are seeded samples "
+        "of structured families, not an enumeration)",
+        f"judged instances never hold more than {DEPTH_CAP} pairwise disjoint eligible rows: solve_exact_cover recurses once per "
+        "selected row and raises RecursionError beyond the interpreter's limit (recorded in the notes and in triage/C07_round2.md, "
+        "not judged: no answer is returned)",
+        "a call inside a history that ends MAX_ITER below the 2^rows bound is accepted as a cut-off (the statement puts no bound "
+        "on the number of iterations); its selections are still judged",
         "max_iter cut-offs are recognised by status MAX_ITER; they are accepted only when max_iter < 2^rows (every Algorithm-X "
         "search node is a distinct set of pairwise disjoint rows, so a search on R rows makes at most 2^R calls)",
         "column j is secondary iff its name equals (==) an entry of `secondary`; default names are 0..C-1",
         "0-row matrices with named columns and ragged / non-0/1 matrices are outside the judged domain",
     ]
-    ctx.trusted += ["oracles/exact_cover.py (subset enumeration; two implementations cross-checked each run)",
+    ctx.trusted += ["oracles/exact_cover.py (subset enumeration; two implementations cross-checked each run; union-find split + "
+                    "bit-mask backtracking, sparse definition check and closed-form counts cross-checked against it each run)",
                     "checks/C07.py wellformed()/snapshot() for the inner contracts"]
 
 
 # ------------------------------------------------------------------ replay
+def replay_history(D, rec, case):
+    """Replays the recorded start instance and edits in this one process, up to the failing step (the generator is not
+    consulted: the case holds the start matrix in sparse form and the edit list)."""
+    acc = new_acc()
+    H = dict(case)
+    H["cfgs"] = BASE_CFGS + [c for c in [(True, 100, None)] if case["family"] == "long"] + [c for c in [(False, None, 3)] if case["family"] == "small"]
+    cfg = (case["find_all"], case["max_solutions"], case["max_iter"])
+    if cfg not in H["cfgs"] and case["fail_step"] != 0:
+        H["cfgs"] = H["cfgs"] + [cfg]
+    TIMEOUT[0] = 240.0
+    print(f"replay: history ({case['family']}, spec {case['spec']}), start {len(case['rows'])} rows x {case['n_cols']} columns, "
+          f"columns={short(case['columns'], 80)}, secondary={short(case['secondary'], 80)}, edits {case['steps'][:case['fail_step']]}")
+    got = run_history(D, H, acc, upto=case["fail_step"], log=lambda t: print("replay:", t))
+    fresh_bad = False
+    if rec.get("obligation", "").endswith("fresh-process") and got is not None:
+        final, last = got
+        for (c, here), there in zip(last, fresh_answers([(final, [c for c, _ in last])])[0]):
+            same = here[:4] == there[:4]
+            fresh_bad |= not same and there[0] != "hang"
+            print(f"replay: fresh process, find_all={c[0]} max_solutions={c[1]} max_iter={c[2]}: {'same answer' if same else f'{there[1:3] + there[4:]} (here: {here[1:3] + here[4:]})'}")
+    if not acc["viol"] and not fresh_bad:
+        print("replay: contract holds on every step of this history")
+    return 1 if acc["viol"] or acc["hangs"] or fresh_bad else 0
+
+
 def replay(rec) -> int:
     use_repo()
     import solvor.dlx as D
     case = rec.get("case") or {}
+    if case.get("kind") == "history":
+        return replay_history(D, rec, case)
     columns, secondary = lit(case.get("columns")), lit(case.get("secondary"))
     matrix = case["matrix"]
     if case.get("kind") == "links":
